@@ -62,10 +62,18 @@ def field_uses(prog: Program, m: FuncInfo, sn: str, fields: set[str] | None = No
     return out
 
 
+def all_methods(prog: Program, ci: ClassInfo) -> dict:
+    """the class's methods including those inherited from repository base classes / mixins (nearest definition wins)"""
+    out: dict = {}
+    for c in reversed(prog.mro(ci)):
+        out.update(c.methods)
+    return out
+
+
 def guarded_fields(prog: Program, ci: ClassInfo, lock: str) -> set[str]:
     """fields written (assigned or mutated in place, directly or through a local alias) outside __init__"""
     out: set[str] = set()
-    for name, m in ci.methods.items():
+    for name, m in all_methods(prog, ci).items():
         if name == "__init__":
             continue
         sn = self_name(m)
@@ -96,7 +104,7 @@ class NoEagerLock(Exception):
 
 
 def lock_field(prog: Program, ci: ClassInfo) -> str:
-    init = ci.methods.get("__init__")
+    init = all_methods(prog, ci).get("__init__")
     locks = []
     if init is not None:
         for n in prog._own_nodes(init.node):
@@ -224,7 +232,7 @@ def run(rep: Report, prog: Program, tier: str) -> None:
             lock = lock_field(prog, ci)
         except NoEagerLock as exc:
             rep.instance("R17.3", f"{cq}|lock-created-in-__init__")
-            init = ci.methods.get("__init__")
+            init = all_methods(prog, ci).get("__init__")
             rep.fail("R17.3", f"{cq}|no-eager-lock", str(exc), where=(init.where() if init is not None else f"{ci.module.relpath}:{ci.node.lineno}"), function=cq)
             continue
         guarded = guarded_fields(prog, ci, lock)
@@ -233,13 +241,13 @@ def run(rep: Report, prog: Program, tier: str) -> None:
         rep.extra.setdefault("guarded_fields", {})[cq] = sorted(guarded)
         # classify methods
         locking: set[str] = set()  # methods that take the lock themselves
-        for name, m in ci.methods.items():
+        for name, m in all_methods(prog, ci).items():
             sn = self_name(m)
             if sn and with_lock_blocks(m, sn, lock):
                 locking.add(name)
         # helpers: methods that touch guarded fields without taking the lock
         helper_need: dict[str, list[ast.AST]] = {}
-        for name, m in ci.methods.items():
+        for name, m in all_methods(prog, ci).items():
             rep.analysed(m.qual)
             if name == "__init__":
                 continue
@@ -263,11 +271,15 @@ def run(rep: Report, prog: Program, tier: str) -> None:
         # every call site of a helper must hold the lock (transitively through other helpers)
         def call_sites(target: str) -> list[tuple[FuncInfo, ast.Call]]:
             out = []
-            for nm, m in ci.methods.items():
+            for nm, m in all_methods(prog, ci).items():
                 sn = self_name(m)
+                tm = all_methods(prog, ci).get(target)
+                is_prop = tm is not None and tm.is_property
                 for n in prog._own_nodes(m.node):
                     if isinstance(n, ast.Call) and isinstance(n.func, ast.Attribute) and n.func.attr == target and isinstance(n.func.value, ast.Name) and n.func.value.id == sn:
                         out.append((m, n))
+                    elif is_prop and isinstance(n, ast.Attribute) and n.attr == target and isinstance(n.value, ast.Name) and n.value.id == sn and isinstance(n.ctx, ast.Load):
+                        out.append((m, n))  # a private property is "called" wherever it is read
             return out
 
         def holds_lock(m: FuncInfo, node: ast.AST, seen: tuple = ()) -> bool:
@@ -282,7 +294,7 @@ def run(rep: Report, prog: Program, tier: str) -> None:
             return bool(sites) and all(holds_lock(cm, cn, seen + (m.name,)) for cm, cn in sites)
 
         for name, outside in helper_need.items():
-            m = ci.methods[name]
+            m = all_methods(prog, ci)[name]
             body = [s for s in m.node.body if not (isinstance(s, ast.Expr) and isinstance(s.value, ast.Constant))]
             single_load = (
                 len(body) == 1
@@ -300,7 +312,7 @@ def run(rep: Report, prog: Program, tier: str) -> None:
                     fld = getattr(n, "attr", None) or field_aliases(prog, m, self_name(m) or "self").get(getattr(n, "id", ""), "?")
                     rep.fail("R17.1", f"{m.qual}|{fld}|unlocked", f"{m.qual} accesses guarded field `{fld}` without holding {lock} (and not every call site of this method holds it)", where=m.where(n), function=m.qual)
         # public methods: one critical section, result inside
-        for name, m in ci.methods.items():
+        for name, m in all_methods(prog, ci).items():
             if name.startswith("_") or m.is_property and name not in locking:
                 if not (m.is_property and name in locking):
                     continue
@@ -356,7 +368,7 @@ def run(rep: Report, prog: Program, tier: str) -> None:
             else:
                 rep.ok("R17.2")
         # calls made while holding the lock
-        for name, m in ci.methods.items():
+        for name, m in all_methods(prog, ci).items():
             sn = self_name(m)
             if sn is None:
                 continue
@@ -377,7 +389,7 @@ def run(rep: Report, prog: Program, tier: str) -> None:
                         problem = f"calls lock-taking method self.{f.attr}() while holding {lock} (self-deadlock)"
                     elif f.attr == lock:
                         problem = "uses the lock object directly"
-                    elif f.attr not in ci.methods:
+                    elif f.attr not in all_methods(prog, ci):
                         problem = f"calls the injected callable self.{f.attr}() while holding {lock}"
                 for t in prog.resolve_call(n, m):
                     if t.kind == "callback":
@@ -390,7 +402,7 @@ def run(rep: Report, prog: Program, tier: str) -> None:
                     rep.ok("R17.3")
             # `.state` read through the property inside a locked region
             for n in prog._own_nodes(m.node):
-                if isinstance(n, ast.Attribute) and isinstance(n.value, ast.Name) and n.value.id == sn and n.attr in locking and isinstance(ci.methods.get(n.attr), FuncInfo) and ci.methods[n.attr].is_property:
+                if isinstance(n, ast.Attribute) and isinstance(n.value, ast.Name) and n.value.id == sn and n.attr in locking and isinstance(all_methods(prog, ci).get(n.attr), FuncInfo) and all_methods(prog, ci)[n.attr].is_property:
                     if inside(n, blocks) or held_everywhere:
                         rep.instance("R17.3", f"{m.qual}|property {n.attr}")
                         rep.fail("R17.3", f"{m.qual}|property-{n.attr}-under-lock", f"{m.qual} reads the lock-taking property self.{n.attr} while holding {lock} (self-deadlock)", where=m.where(n), function=m.qual)
